@@ -5,12 +5,14 @@ namespace Stackage.Driver
 open Stackage
 
 inductive CHOp where
+  | hold
   | op (o : CondOp)
   | cond (kw : Val) (o : Op) (ex : Val)
   | bad
 
 def parseCHOp (ts : List String) : CHOp :=
   match ts with
+  | ["hold"] => .hold
   | ["init"] => .op .init
   | "cond" :: rest =>
     let (kw, r1) := parseVal rest
@@ -35,23 +37,49 @@ def obsCnd (c : Cnd) : String :=
 def obsCSpec (s : CondSpec.St) : String :=
   s!"K{hx s.kw} O{Op.str s.op} X{short s.ex} V{b01 (CondSpec.valid closures s)} R{b01 s.err} N{b01 (!s.nnest)} G{b01 s.ex.isStack} S{hx (CondSpec.string closures s)}"
 
+/-- a second handle on the instance (`held := c`, or what `Push(c)` stored): the same instance until the variable is
+re-initialised (`Init` / `Cond` replace the instance the variable refers to); from then on the copy keeps what it had -/
+structure Held (α : Type) where
+  cur : α
+  held : Option α := none
+  attached : Bool := false
+
+def Held.step {α : Type} (h : Held α) (replaces : Bool) (c' : α) : Held α :=
+  if replaces then { h with cur := c', attached := false }
+  else if h.attached then { cur := c', held := some c', attached := true }
+  else { h with cur := c' }
+
+def Held.hold {α : Type} (h : Held α) : Held α := { h with held := some h.cur, attached := true }
+
+def Held.obs {α : Type} (h : Held α) (f : α → String) : String :=
+  match h.held, h.attached with
+  | some x, false => s!"{f h.cur} H[ {f x} ]"
+  | _, _ => f h.cur
+
+def CHOp.replaces : CHOp → Bool
+  | .op .init => true
+  | .cond .. => true
+  | _ => false
+
 def runCondHist (payload : String) : String × String × String :=
   let parts := payload.splitOn " | "
   let ops : List CHOp := (parts.headD "" :: (match parts with
       | [_, o] => if o.trimAscii.toString == "" then [] else o.splitOn " ; "
       | _ => [])).map (fun t => parseCHOp (words t))
-  let (_, ms) := ops.foldl (fun (acc : Cnd × List String) op =>
-      let c' := match op with
-        | .op o => acc.1.apply o
-        | .cond kw o ex => Cnd.cond closures kw o ex
+  let (_, ms) := ops.foldl (fun (acc : Held Cnd × List String) op =>
+      let h' := match op with
+        | .hold => acc.1.hold
+        | .op o => acc.1.step op.replaces (acc.1.cur.apply o)
+        | .cond kw o ex => acc.1.step true (Cnd.cond closures kw o ex)
         | .bad => acc.1
-      (c', s!"- {obsCnd c'}" :: acc.2)) (Cnd.init, [])
-  let (_, ss) := ops.foldl (fun (acc : CondSpec.St × List String) op =>
-      let s' := match op with
-        | .op o => CondSpec.step closures acc.1 o
-        | .cond kw o ex => CondSpec.cond closures kw o ex
+      (h', s!"- {h'.obs obsCnd}" :: acc.2)) ({ cur := Cnd.init }, [])
+  let (_, ss) := ops.foldl (fun (acc : Held CondSpec.St × List String) op =>
+      let h' := match op with
+        | .hold => acc.1.hold
+        | .op o => acc.1.step op.replaces (CondSpec.step closures acc.1.cur o)
+        | .cond kw o ex => acc.1.step true (CondSpec.cond closures kw o ex)
         | .bad => acc.1
-      (s', s!"- {obsCSpec s'}" :: acc.2)) ({}, [])
+      (h', s!"- {h'.obs obsCSpec}" :: acc.2)) ({ cur := {} }, [])
   (" ; ".intercalate ms.reverse, " ; ".intercalate ss.reverse, "")
 
 end Stackage.Driver
